@@ -23,7 +23,9 @@ theorem cfg_union : unionQuantifier = "any" ∧ unionLazy = false ∧ unionOverA
 theorem cfg_literal : literalIsMembership = true := by decide
 theorem cfg_requiredTestFirst : requiredTestFirst = true := by decide
 theorem cfg_noneBranchIsEq : noneBranchIsEq = true := by decide
-theorem cfg_strGuard : strBranchGuardsNoneBase = true := by decide
+/-- the string branch of `_check_type` (repaired): a name that is a class of the context is checked with isinstance, any other name is
+    compared with the class names of the whole MRO -/
+theorem cfg_strBranch : strBranchResolvesInContext = true ∧ strBranchComparesMro = true := by decide
 theorem cfg_catchesAll : catchesAll = true := by decide
 theorem cfg_bareRaise : bareBuiltinsRaise = "PedanticTypeCheckException" := by decide
 theorem cfg_special_any : specialIs "Any" "const_true" = true := by decide
